@@ -47,6 +47,23 @@ def mangle(v):
 MANGLED = None
 
 
+def stale_of(case, key, val):
+    # the joiner holds a value the primary wrote to this key earlier (possibly mangled by a catch-up): once its version
+    # of the key differs from the primary's (catch-up lines carry no version) later versioned writes are refused there
+    for op in case[2]:
+        if op[0] != "cmd":
+            continue
+        w = line_of(op).split(" ")
+        v = None
+        if w[0] == "set" and len(w) >= 2 and w[1] == key:
+            v = " ".join(w[2:])
+        elif w[0] == "set-safe" and len(w) >= 3 and w[1] == key:
+            v = " ".join(w[3:])
+        if v is not None and (val == v or val == mangle(v)[0] or word_suffix(val, v)):
+            return True
+    return False
+
+
 def word_suffix(b, a):
     # the value lost one leading word per synchronisation it went through
     w = a.split(" ")
@@ -136,7 +153,44 @@ def gen_cases(tier, seed):
         ops += [["settle"]]
         cases.append(("j%d" % i, hdr, ops))
         dist["rejoin"] += 1
+    # fixed family: keys whose global id is 1 or 2 (the ids the create-db / snapshot log records used to share) written while
+    # the node is away, followed by a snapshot or in a database created while away
+    dist["marker_ids"] = 0
+    for variant in range(4):
+        names, hdr, ops = base_cluster(1)
+        ops += [CC("n1", 0, "create-db d1 tok1"), CC("n1", 0, "use-db d1 tok1"), CC("n1", 0, "set k0 a"), CC("n1", 0, "set k1 b"),
+                CC("n1", 0, "set k2 c"), ["settle"], ["addsec", "n1", "n3"], ["settle"]]
+        if variant == 0:
+            away = ["set k2 c2 tail", "snapshot false d1"]
+        elif variant == 1:
+            away = ["set k1 b2 tail", "snapshot false d1", "set k2 c2 tail", "snapshot false d1"]
+        elif variant == 2:
+            away = ["create-db e1 t1", "use-db e1 t1", "set k1 x tail"]
+        else:
+            away = ["create-db e1 t1", "use-db e1 t1", "set k2 y tail", "snapshot false e1", "remove k1"]
+        for a in away:
+            ops += [CC("n1", 0, a), ["pollrepl", "n1"], ["drop", "n1", "n3"]]
+        ops += [["resync", "n3", "n1"], ["settle"]]
+        cases.append(("m%d" % variant, hdr, ops))
+        dist["marker_ids"] += 1
     return cases, dist
+
+
+def away_written(case):
+    """(db, key) -> last value written between the node's departure (first 'drop') and its 'resync'"""
+    out, cur, away = {}, "d1", False
+    for op in case[2]:
+        if op[0] == "drop":
+            away = True
+        if op[0] == "resync":
+            break
+        if op[0] == "cmd" and op[1] == "n1":
+            w = line_of(op).split(" ")
+            if w[0] == "use-db":
+                cur = w[1]
+            elif w[0] == "set" and len(w) >= 3:
+                out[(cur, w[1])] = " ".join(w[2:]) if away or True else None
+    return out
 
 
 def oracle(case, io, mo):
@@ -180,10 +234,13 @@ def oracle(case, io, mo):
             lb = b is not None and b[2] == "L"
             if la == lb and (not la or (a[0], a[1]) == (b[0], b[1])):
                 continue
-            if a is not None and a[2] == "D" and lb:
+            if case[0].startswith("m") and la and lb and b[0] not in (a[0], mangle(a[0])[0]):
+                fails.append(("incremental-sync-misses-key", "%s key %s: primary %r@%d, joiner still %r@%d" % (dbn, k, a[0], a[1], b[0], b[1])))
+            elif a is not None and a[2] == "D" and lb:
                 fails.append(("sync-revives-removed-key", "%s key %s: removed on the primary, live %r on the joiner" % (dbn, k, b[0])))
             elif la and lb and (b[0] == mangle(a[0])[0] or (a[0] == b[0] and a[1] != b[1]) or parse_i32(a[0].split(" ", 1)[0]) is not None
-                                or b[1] == -2 or (b[0] != a[0] and b[0] in MANGLED) or word_suffix(b[0], a[0])):
+                                or b[1] == -2 or (b[0] != a[0] and b[0] in MANGLED) or word_suffix(b[0], a[0])
+                                or stale_of(case, k, b[0])):
                 # the catch-up line carries no version: the value's first word is taken for it (value mangled, or the
                 # line refused / the key marked in conflict when that word is a number), or the joiner numbers the
                 # write itself (same value, other version)
